@@ -151,7 +151,8 @@ Definition disk_ok (seed : N) (D : disk) : Prop :=
      match aget scope_eq_dec (d_last D) s with Some l => a <= l | None => a = 0 end) /\
   (forall s k r, aget sk_dec (d_addrs D) (s, k) = Some r -> addr_row_ok D s k r) /\
   (forall k n, aget sab_dec (d_next D) k = Some n -> n <= hardened_start) /\
-  NoDup (map fst (d_scopes D)).
+  NoDup (map fst (d_scopes D)) /\
+  (forall s l, aget scope_eq_dec (d_last D) s = Some l -> is_some (aget scope_eq_dec (d_scopes D) s) = true).
 
 Definition scopes_ok (D : disk) (M : mem) : Prop :=
   forall s sch, In (s, sch) (m_scopes M) ->
@@ -1229,7 +1230,7 @@ Section issue.
     destruct st as [D M]. unf. splits; [|constructor; simpl; try reflexivity; eauto using incl_refl|reflexivity].
     destruct I as [ID IS IA IH IC IQ IP IHd]. simpl in *.
     constructor; simpl; try assumption.
-    destruct ID as (D1 & D2 & D3 & D4 & D5 & D6). unfold disk_ok. simpl. splits; try assumption.
+    destruct ID as (D1 & D2 & D3 & D4 & D5 & D6 & D7). unfold disk_ok. simpl. splits; try assumption.
     - intros s' k' r H. rewrite aget_aset in H.
       destruct (sk_dec (s', k') (s, obj_akey (MKey ma))) as [E|E].
       + inversion E. inversion H. subst. simpl. exists row, sch, coin. splits; try assumption.
@@ -1521,20 +1522,44 @@ Definition HC (st : state) : Prop :=
   forall oid ma, nth_error (m_heap (st_mem st)) oid = Some (MKey ma) -> ma_imported ma = false ->
     is_some (aget sa_dec (m_accts (st_mem st)) (ma_scope ma, dp_iacct (ma_path ma))) = true.
 
-Lemma HC_grow st st' : HC st -> ext st st' -> new_fresh st st' -> HC st'.
+(** new chain objects belong to cached accounts (whatever their key state) *)
+Definition cached_obj (st : state) (oid : nat) : Prop :=
+  forall ma, nth_error (m_heap (st_mem st)) oid = Some (MKey ma) -> ma_imported ma = false ->
+    is_some (aget sa_dec (m_accts (st_mem st)) (ma_scope ma, dp_iacct (ma_path ma))) = true.
+
+Definition new_cached (st st' : state) : Prop :=
+  forall oid, (length (m_heap (st_mem st)) <= oid < length (m_heap (st_mem st')))%nat -> cached_obj st' oid.
+
+Lemma fresh_cached st oid : fresh st oid -> cached_obj st oid.
+Proof.
+  intros F ma Hn Hi. destruct (F ma Hn Hi) as (s & a & (ma' & F1 & F2 & F3 & F4 & _) & C).
+  rewrite Hn in F1. inversion F1. subst ma'. rewrite F3, F4. exact C.
+Qed.
+
+Lemma new_fresh_cached st st' : new_fresh st st' -> new_cached st st'.
+Proof. intros H oid Ho. apply fresh_cached. apply H. exact Ho. Qed.
+
+Lemma cached_obj_ext st st' oid :
+  ext st st' -> (oid < length (m_heap (st_mem st)))%nat -> cached_obj st oid -> cached_obj st' oid.
+Proof.
+  intros E Hlt C ma Hn Hi.
+  destruct (nth_error (m_heap (st_mem st)) oid) as [o|] eqn:Eo; [|apply nth_error_None in Eo; lia].
+  pose proof (ext_heap _ _ E _ _ Eo) as Eo'. rewrite Hn in Eo'. inversion Eo'. subst o.
+  specialize (C ma Eo Hi).
+  destruct (aget sa_dec (m_accts (st_mem st)) _) as [ai|] eqn:Ea; [|discriminate].
+  destruct (ext_cached _ _ E _ _ Ea) as (ai' & ->). reflexivity.
+Qed.
+
+Lemma HC_grow_cached st st' : HC st -> ext st st' -> new_cached st st' -> HC st'.
 Proof.
   intros H E N oid ma Hn Hi.
   destruct (Nat.ltb_spec oid (length (m_heap (st_mem st)))) as [Hlt|Hge].
-  - destruct (nth_error (m_heap (st_mem st)) oid) as [o|] eqn:Eo; [|apply nth_error_None in Eo; lia].
-    pose proof (ext_heap _ _ E _ _ Eo) as Eo'. rewrite Hn in Eo'. inversion Eo'. subst o.
-    specialize (H oid ma Eo Hi).
-    destruct (aget sa_dec (m_accts (st_mem st)) _) as [ai|] eqn:Ea; [|discriminate].
-    destruct (ext_cached _ _ E _ _ Ea) as (ai' & ->). reflexivity.
-  - assert (Hr : (length (m_heap (st_mem st)) <= oid < length (m_heap (st_mem st')))%nat).
-    { split; [exact Hge|]. eapply nth_error_Some_lt; eauto. }
-    destruct (N oid Hr ma Hn Hi) as (s & a & (ma' & F1 & F2 & F3 & F4 & _) & C).
-    rewrite Hn in F1. inversion F1. subst ma'. rewrite F3, F4. exact C.
+  - apply (cached_obj_ext st st' oid E Hlt); [|exact Hn|exact Hi]. intros mb Hb Hib. exact (H oid mb Hb Hib).
+  - apply (N oid); [|exact Hn|exact Hi]. split; [exact Hge|]. eapply nth_error_Some_lt; eauto.
 Qed.
+
+Lemma HC_grow st st' : HC st -> ext st st' -> new_fresh st st' -> HC st'.
+Proof. intros H E N. eapply HC_grow_cached; eauto using new_fresh_cached. Qed.
 
 Section next_ext.
   Context (seed : N) (lk : bool).
@@ -1555,7 +1580,7 @@ Section next_ext.
     let st5 := cache_acct (cache_objs st3 s branch queue objs) s a ai' in
     Inv0 seed lk st5 /\ ext st st5 /\
     ((ai_enc ai <> None -> x_is_private bk = true \/ (m_locked (st_mem st1) = true /\ queue = true)) ->
-     new_fresh st st5) /\ st_disk st5 = st_disk st3 /\
+     new_fresh st st5) /\ new_cached st st5 /\ st_disk st5 = st_disk st3 /\
     m_accts (st_mem st5) = aset sa_dec (m_accts (st_mem st3)) (s, a) ai'.
   Proof.
     intros E01 N01 I1 Hs Hc Hchild E12 L2 G2 P2 I3 E23 N23 Hai' st5.
@@ -1579,11 +1604,26 @@ Section next_ext.
     assert (E15 : ext st1 st5) by (eapply ext_trans; eauto).
     assert (H5 : m_heap (st_mem st5) = m_heap (st_mem st3)) by (unfold st5; unf; exact H4).
     assert (Q5 : m_queue (st_mem st5) = m_queue (st_mem st4)) by (unfold st5; unf; reflexivity).
-    splits; [exact I5|eapply ext_trans; eauto| |unfold st5; unf; exact D4|unfold st5; unf; rewrite A4; reflexivity].
-    (* every new object is fresh in the final state *)
-    intros Hq.
     assert (C5 : is_some (aget sa_dec (m_accts (st_mem st5)) (s, a)) = true).
     { unfold st5. unf. rewrite aget_aset_eq. reflexivity. }
+    splits; [exact I5|eapply ext_trans; eauto| | |unfold st5; unf; exact D4|unfold st5; unf; rewrite A4; reflexivity].
+    2: { (* the new objects belong to cached accounts *)
+      intros oid Ho.
+      destruct (Nat.ltb_spec oid (length (m_heap (st_mem st1)))) as [H1|H1].
+      - eapply cached_obj_ext; [exact E15|exact H1|]. apply fresh_cached. apply N01. lia.
+      - destruct (Nat.ltb_spec oid (length (m_heap (st_mem st2)))) as [H2|H2].
+        + intros ma Hn Hi.
+          assert (Hin : In oid (map fst objs)) by (rewrite G2; apply in_seq; lia).
+          apply in_map_iff in Hin. destruct Hin as ([oid' idx] & Hf & Hin). simpl in Hf. subst oid'.
+          rewrite Forall_forall in P2. destruct (P2 _ Hin) as (C & _). simpl in C.
+          assert (E25 : ext st2 st5) by (eapply ext_trans; eauto).
+          destruct C as (ma' & row' & sch' & coin' & Q1 & Q2 & Q3 & Q4' & _).
+          pose proof (ext_heap _ _ E25 _ _ Q1) as Q1'. rewrite Hn in Q1'. inversion Q1'. subst ma'.
+          rewrite Q3, Q4'. exact C5.
+        + assert (Hlt : (oid < length (m_heap (st_mem st3)))%nat) by (rewrite <- H5; lia).
+          eapply cached_obj_ext; [exact E35|exact Hlt|]. apply fresh_cached. apply N23. lia. }
+    (* every new object is fresh in the final state *)
+    intros Hq.
     assert (N13 : forall oid, (length (m_heap (st_mem st1)) <= oid < length (m_heap (st_mem st2)))%nat -> fresh st5 oid).
     { intros oid Ho ma Hn Hi. exists s, a. split; [|exact C5].
       assert (Hin : In oid (map fst objs)) by (rewrite G2; apply in_seq; lia).
@@ -1610,6 +1650,10 @@ Section next_ext.
         eapply fresh_ext; [exact E35|exact Hlt|]. apply N23. lia.
   Qed.
 End next_ext.
+
+Lemma Forall2_imp {A B} (P Q : A -> B -> Prop) l l' :
+  (forall a b, P a b -> Q a b) -> Forall2 P l l' -> Forall2 Q l l'.
+Proof. intros H. induction 1; constructor; auto. Qed.
 
 Lemma Forall_Forall2_fst_snd {A B} (P : A -> B -> Prop) (l : list (A * B)) :
   Forall (fun p => P (fst p) (snd p)) l -> Forall2 P (map fst l) (map snd l).
@@ -1745,7 +1789,7 @@ Section next_ext2.
     destruct (issue_finish seed lk st st1 st2 st3 s sch a ai bk (child_num (x_skey ak)) branch
                            (locked st3 && negb watch_only) objs (N.to_nat n) ai'
                            E1 N1 I1 Hs1 C1 (f_equal child_num Hak1) E2 L2 G2 P2 I3 E3 N3 Hai')
-      as (I5 & E5 & N5 & D5 & A5).
+      as (I5 & E5 & N5 & _ & D5 & A5).
     specialize (N5 Hq).
     set (st5 := cache_acct (cache_objs st3 s branch (locked st3 && negb watch_only) objs) s a ai') in *.
     (* the stored next index *)
@@ -1817,7 +1861,7 @@ Section extend.
     Inv0 seed lk st -> m_locked (st_mem st) = lk -> In (s, sch) (m_scopes (st_mem st)) -> NextOk st ->
     match extend_addresses b st s sch a last internal with
     | Ok st' _ =>
-      Inv0 seed lk st' /\ ext st st' /\ (b = true -> new_fresh st st') /\ NextOk st' /\
+      Inv0 seed lk st' /\ ext st st' /\ (b = true -> new_fresh st st') /\ new_cached st st' /\ NextOk st' /\
       disk_next (st_disk st') s a internal = N.max (disk_next (st_disk st) s a internal) (last + 1) /\
       (forall s' a' i', (s', a', i') <> (s, a, internal) ->
          disk_next (st_disk st') s' a' i' = disk_next (st_disk st) s' a' i')
@@ -1842,8 +1886,8 @@ Section extend.
     assert (Hnext : next = disk_next (st_disk st) s a internal).
     { destruct (HN1 s a ai C1) as (X1 & X2). unfold next. rewrite <- D1. destruct internal; assumption. }
     destruct (last <? next) eqn:Hlast.
-    { apply N.ltb_lt in Hlast. splits; try assumption; [intros _; exact N1| |intros; rewrite D1; reflexivity].
-      rewrite D1, <- Hnext. lia. }
+    { apply N.ltb_lt in Hlast. splits; try assumption; [intros _; exact N1|apply new_fresh_cached; exact N1| |intros; rewrite D1; reflexivity].
+      rewrite D1, <- Hnext. clear - Hlast. lia. }
     apply N.ltb_ge in Hlast.
     destruct (max_addresses_per_account <? last) eqn:Hmax; [exact Herr|]. apply N.ltb_ge in Hmax.
     set (use_priv := negb (locked st1) && negb watch_only).
@@ -1870,7 +1914,7 @@ Section extend.
       apply Hidx. rewrite <- S2. apply in_map. exact Hp. }
     destruct (write_only_post seed lk s a branch objs st2 I2 Ho2) as (I3 & E3 & M3 & X3).
     set (st3 := write_only st2 s a branch objs) in *.
-    assert (N3 : new_fresh st2 st3) by (intros oid Ho; rewrite M3 in Ho; lia).
+    assert (N3 : new_fresh st2 st3) by (intros oid Ho; rewrite M3 in Ho; clear - Ho; lia).
     assert (Hlock3 : locked st3 = lk).
     { unfold locked. rewrite (ext_locked _ _ E3), (ext_locked _ _ E2). exact Hl1. }
     set (ai' := set_next internal (last + 1) ai).
@@ -1881,7 +1925,7 @@ Section extend.
     destruct (issue_finish seed lk st st1 st2 st3 s sch a ai bk (child_num (ai_pub ai)) branch
                            (locked st3 && negb watch_only) objs (N.to_nat (last + 1 - next)) ai'
                            E1 N1 I1 Hs1 C1 eq_refl E2 L2 G2 P2 I3 E3 N3 Hai')
-      as (I5 & E5 & N5 & D5 & A5).
+      as (I5 & E5 & N5 & NC5 & D5 & A5).
     set (st5 := cache_acct (cache_objs st3 s branch (locked st3 && negb watch_only) objs) s a ai') in *.
     assert (Hbi : (branch =? internal_branch) = internal) by (unfold branch; destruct internal; reflexivity).
     assert (Hnx : disk_next (st_disk st5) s a internal = last + 1 /\
@@ -1908,7 +1952,965 @@ Section extend.
         * rewrite Hnx1. split; [reflexivity|]. rewrite Y2. symmetry. apply Hnx2. intros Hx. inversion Hx.
       + destruct (HN1 s' a' ai0 H0) as (Y1 & Y2). rewrite Y1, Y2.
         split; symmetry; apply Hnx2; intros Hx; apply E; inversion Hx; reflexivity.
-    - rewrite Hnx1, <- Hnext. lia.
+    - rewrite Hnx1, <- Hnext. clear - Hlast. lia.
     - intros s' a' i' Hne. rewrite Hnx2 by exact Hne. rewrite D1. reflexivity.
   Qed.
 End extend.
+
+(* ------------------------------------------------------ getters and reports *)
+
+Definition enc_same (o o' : mobj) : Prop :=
+  match o, o' with
+  | MKey a, MKey b => ma_enc a = ma_enc b
+  | MScript a, MScript b => sa_enc a = sa_enc b
+  | _, _ => False
+  end.
+
+(** a change that only fills or clears clear-text slots of objects (and may
+    hand out more objects) *)
+Record pres (st st' : state) : Prop := mkPres {
+  p_disk : st_disk st' = st_disk st;
+  p_locked : m_locked (st_mem st') = m_locked (st_mem st);
+  p_pass : m_pass (st_mem st') = m_pass (st_mem st);
+  p_scopes : m_scopes (st_mem st') = m_scopes (st_mem st);
+  p_accts : m_accts (st_mem st') = m_accts (st_mem st);
+  p_addrs : m_addrs (st_mem st') = m_addrs (st_mem st);
+  p_queue : m_queue (st_mem st') = m_queue (st_mem st);
+  p_len : length (m_heap (st_mem st')) = length (m_heap (st_mem st));
+  p_heap : forall i o, nth_error (m_heap (st_mem st)) i = Some o ->
+           exists o', nth_error (m_heap (st_mem st')) i = Some o' /\ same_shape o o' /\ enc_same o o';
+}.
+
+Lemma same_shape_refl o : same_shape o o.
+Proof. destruct o; simpl; tauto. Qed.
+Lemma enc_same_refl o : enc_same o o.
+Proof. destruct o; simpl; reflexivity. Qed.
+Lemma same_shape_trans a b c : same_shape a b -> same_shape b c -> same_shape a c.
+Proof. destruct a, b, c; simpl; try tauto; intuition congruence. Qed.
+Lemma enc_same_trans a b c : enc_same a b -> enc_same b c -> enc_same a c.
+Proof. destruct a, b, c; simpl; try tauto; congruence. Qed.
+
+Lemma pres_refl st : pres st st.
+Proof. constructor; try reflexivity. intros i o H. exists o. auto using same_shape_refl, enc_same_refl. Qed.
+
+Lemma pres_trans a b c : pres a b -> pres b c -> pres a c.
+Proof.
+  intros [] []. constructor; try congruence.
+  intros i o H. destruct (p_heap0 i o H) as (o1 & H1 & S1 & E1).
+  destruct (p_heap1 i o1 H1) as (o2 & H2 & S2 & E2). exists o2.
+  eauto using same_shape_trans, enc_same_trans.
+Qed.
+
+Lemma pres_heap_back st st' i o' :
+  pres st st' -> nth_error (m_heap (st_mem st')) i = Some o' ->
+  exists o, nth_error (m_heap (st_mem st)) i = Some o /\ same_shape o o' /\ enc_same o o'.
+Proof.
+  intros P H. pose proof (nth_error_Some_lt _ _ _ H) as Hlt. rewrite (p_len _ _ P) in Hlt.
+  destruct (nth_error (m_heap (st_mem st)) i) as [o|] eqn:E; [|apply nth_error_None in E; lia].
+  destruct (p_heap _ _ P i o E) as (o2 & H2 & S2 & E2). rewrite H in H2. inversion H2. subst o2. eauto.
+Qed.
+
+Lemma NextOk_pres st st' : pres st st' -> NextOk st -> NextOk st'.
+Proof. intros P H s a ai Hc. rewrite (p_accts _ _ P) in Hc. rewrite (p_disk _ _ P). exact (H s a ai Hc). Qed.
+
+Lemma HC_pres st st' : pres st st' -> HC st -> HC st'.
+Proof.
+  intros P H oid ma Hn Hi. destruct (pres_heap_back _ _ _ _ P Hn) as (o & Ho & S & _).
+  destruct o as [mb|]; simpl in S; [|contradiction]. destruct S as (S1 & S2 & _ & _ & S5 & _).
+  rewrite (p_accts _ _ P), <- S1, <- S2. apply (H oid mb Ho). congruence.
+Qed.
+
+(** replacing the clear text of one object *)
+Lemma heap_set_pres seed lk st oid o o' :
+  Inv0 seed lk st -> nth_error (m_heap (st_mem st)) oid = Some o -> same_shape o o' -> enc_same o o' ->
+  obj_ok (st_disk st) o' -> Inv0 seed lk (heap_set st oid o') /\ pres st (heap_set st oid o') /\
+  m_handles (st_mem (heap_set st oid o')) = m_handles (st_mem st).
+Proof.
+  intros I H1 H2 H3 H4. split; [eapply heap_set_post; eauto|]. split; [|unf; reflexivity].
+  destruct st as [D M]. unf. constructor; simpl; try reflexivity.
+  - apply length_list_set.
+  - intros i x Hx. rewrite nth_error_list_set. destruct (Nat.eqb_spec i oid) as [->|].
+    + pose proof (nth_error_Some_lt _ _ _ H1) as Hlt. destruct (Nat.ltb_spec oid (length (m_heap M))); [|lia].
+      rewrite H1 in Hx. inversion Hx. subst x. eauto.
+    + exists x. auto using same_shape_refl, enc_same_refl.
+Qed.
+
+Section getters.
+  Context (seed : N) (lk : bool).
+
+  Lemma priv_key_post st oid :
+    Inv0 seed lk st ->
+    Inv0 seed lk (fst (priv_key st oid)) /\ pres st (fst (priv_key st oid)) /\
+    m_handles (st_mem (fst (priv_key st oid))) = m_handles (st_mem st) /\
+    match nth_error (m_heap (st_mem st)) oid with
+    | Some (MKey ma) =>
+      snd (priv_key st oid) =
+      if m_locked (st_mem st) then PErr ELocked
+      else match ma_enc ma with
+           | None => PErr EWatching
+           | Some _ => POk (Priv (skey_of_pub (ma_pub ma)))
+           end
+    | _ => snd (priv_key st oid) = PErr EOther
+    end.
+  Proof.
+    intros I. unfold priv_key, heap_get, locked.
+    destruct (nth_error (m_heap (st_mem st)) oid) as [[ma|sa]|] eqn:Ho; simpl;
+      try (splits; [exact I|apply pres_refl|reflexivity|reflexivity]).
+    destruct (m_locked (st_mem st)); simpl; [splits; [exact I|apply pres_refl|reflexivity|reflexivity]|].
+    destruct (ma_enc ma) as [k|] eqn:Ek; simpl; [|splits; [exact I|apply pres_refl|reflexivity|reflexivity]].
+    destruct (i_heap _ _ _ I _ _ Ho) as ((K1 & K2) & Hrest).
+    set (ct := match ma_ct ma with Some c => c | None => k end).
+    assert (Hct : ct = Priv (skey_of_pub (ma_pub ma))).
+    { unfold ct. destruct (ma_ct ma) as [c|] eqn:Ec; [apply K2; reflexivity|apply K1; exact Ek]. }
+    set (o' := MKey (set_keys (Some k) (Some ct) ma)).
+    assert (Hobj : obj_ok (st_disk st) o').
+    { simpl. split.
+      - unfold keys_ok. simpl. split; intros x Hx; inversion Hx; subst; [apply K1; exact Ek|exact Hct].
+      - destruct (ma_imported ma); [|exact Hrest].
+        destruct Hrest as (n & sch & coin & R1 & R2 & R3). exists n, sch, coin. simpl. rewrite <- Ek. tauto. }
+    destruct (heap_set_pres seed lk st oid (MKey ma) o' I Ho) as (I' & P' & H'); try exact Hobj.
+    + simpl. tauto.
+    + simpl. exact Ek.
+    + splits; try assumption. rewrite Hct. reflexivity.
+  Qed.
+
+  Lemma script_of_post st oid :
+    Inv0 seed lk st ->
+    Inv0 seed lk (fst (script_of st oid)) /\ pres st (fst (script_of st oid)) /\
+    m_handles (st_mem (fst (script_of st oid))) = m_handles (st_mem st) /\
+    match nth_error (m_heap (st_mem st)) oid with
+    | Some (MScript sa) =>
+      snd (script_of st oid) = if m_locked (st_mem st) then SErr ELocked else SOk (sa_script sa)
+    | _ => snd (script_of st oid) = SErr EOther
+    end.
+  Proof.
+    intros I. unfold script_of, heap_get, locked.
+    destruct (nth_error (m_heap (st_mem st)) oid) as [[ma|sa]|] eqn:Ho; simpl;
+      try (splits; [exact I|apply pres_refl|reflexivity|reflexivity]).
+    destruct (m_locked (st_mem st)); simpl; [splits; [exact I|apply pres_refl|reflexivity|reflexivity]|].
+    destruct (i_heap _ _ _ I _ _ Ho) as (K1 & K2). simpl in K1, K2. rewrite K1. simpl.
+    set (ct := match sa_ct sa with Some c => c | None => sa_script sa end).
+    assert (Hct : ct = sa_script sa).
+    { unfold ct. destruct (sa_ct sa) as [c|] eqn:Ec; [apply K2; reflexivity|reflexivity]. }
+    set (o' := MScript (mkSA (sa_scope sa) (sa_script sa) (Some (sa_script sa)) (Some ct))).
+    assert (Hobj : obj_ok (st_disk st) o').
+    { simpl. split; [reflexivity|]. intros c Hc. inversion Hc. subst. exact Hct. }
+    destruct (heap_set_pres seed lk st oid (MScript sa) o' I Ho) as (I' & P' & H'); try exact Hobj.
+    + simpl. tauto.
+    + simpl. exact K1.
+    + splits; try assumption. rewrite Hct. reflexivity.
+  Qed.
+End getters.
+
+(** what [report] says about object [o] in a state with lock flag [lkd] *)
+Definition rinfo_desc (lkd : bool) (o : mobj) (r : rinfo) : Prop :=
+  match o with
+  | MKey ma =>
+    r = RKey (mkInfo (if ma_imported ma then (0, 0) else ma_scope ma)
+                     (if ma_imported ma then zero_path else ma_path ma)
+                     (negb (ma_imported ma)) (dp_iacct (ma_path ma))
+                     (ma_fmt ma) (ma_pub ma) (ma_internal ma) (ma_imported ma)
+                     (if lkd then PErr ELocked
+                      else match ma_enc ma with
+                           | None => PErr EWatching
+                           | Some _ => POk (Priv (skey_of_pub (ma_pub ma)))
+                           end))
+  | MScript sa =>
+    r = RScr (sa_scope sa) (sa_script sa) (if lkd then SErr ELocked else SOk (sa_script sa))
+  end.
+
+Section reports.
+  Context (seed : N) (lk : bool).
+
+  Definition add_handle (st : state) (oid : nat) : state :=
+    upd_mem (fun m => set_m_handles (m_handles m ++ [oid]) m) st.
+
+  Lemma add_handle_post st oid :
+    Inv0 seed lk st -> (oid < length (m_heap (st_mem st)))%nat ->
+    Inv0 seed lk (add_handle st oid) /\ pres st (add_handle st oid) /\
+    m_handles (st_mem (add_handle st oid)) = m_handles (st_mem st) ++ [oid].
+  Proof.
+    intros I Hlt. destruct st as [D M]. unfold add_handle. unf.
+    splits; [|constructor; simpl; try reflexivity; intros i o H; exists o; auto using same_shape_refl, enc_same_refl|reflexivity].
+    destruct I. constructor; unfinv; try assumption.
+    intros h Hh. apply in_app_or in Hh. destruct Hh as [Hh|[<-|[]]]; [eauto|exact Hlt].
+  Qed.
+
+  Lemma report_post st oid o :
+    Inv0 seed lk st -> nth_error (m_heap (st_mem st)) oid = Some o ->
+    Inv0 seed lk (fst (report st oid)) /\ pres st (fst (report st oid)) /\
+    m_handles (st_mem (fst (report st oid))) = m_handles (st_mem st) ++ [oid] /\
+    rinfo_desc (m_locked (st_mem st)) o (snd (report st oid)).
+  Proof.
+    intros I Ho. unfold report. fold (add_handle st oid).
+    destruct (add_handle_post st oid I (nth_error_Some_lt _ _ _ Ho)) as (I1 & P1 & H1).
+    set (st1 := add_handle st oid) in *.
+    assert (Ho1 : nth_error (m_heap (st_mem st1)) oid = Some o) by (unfold st1, add_handle; unf; exact Ho).
+    assert (Hl1 : m_locked (st_mem st1) = m_locked (st_mem st)) by (apply (p_locked _ _ P1)).
+    unfold heap_get. rewrite Ho1. destruct o as [ma|sa].
+    - destruct (priv_key_post seed lk st1 oid I1) as (I2 & P2 & H2 & R2). rewrite Ho1 in R2.
+      destruct (priv_key st1 oid) as [st2 p] eqn:Ep. simpl in *.
+      splits; [exact I2|eapply pres_trans; eauto|congruence|]. rewrite R2; try rewrite Hl1; reflexivity.
+    - destruct (script_of_post seed lk st1 oid I1) as (I2 & P2 & H2 & R2). rewrite Ho1 in R2.
+      destruct (script_of st1 oid) as [st2 p] eqn:Ep. simpl in *.
+      splits; [exact I2|eapply pres_trans; eauto|congruence|]. rewrite R2; try rewrite Hl1; reflexivity.
+  Qed.
+
+  Lemma report_all_post oids : forall st,
+    Inv0 seed lk st -> Forall (fun oid => (oid < length (m_heap (st_mem st)))%nat) oids ->
+    Inv0 seed lk (fst (report_all st oids)) /\ pres st (fst (report_all st oids)) /\
+    m_handles (st_mem (fst (report_all st oids))) = m_handles (st_mem st) ++ oids /\
+    Forall2 (fun oid r => exists o, nth_error (m_heap (st_mem st)) oid = Some o /\
+                                    rinfo_desc (m_locked (st_mem st)) o r)
+            oids (snd (report_all st oids)).
+  Proof.
+    induction oids as [|oid rest IH]; intros st I Hv; simpl.
+    - splits; [exact I|apply pres_refl|rewrite app_nil_r; reflexivity|constructor].
+    - apply Forall_cons_iff in Hv. destruct Hv as (Hv1 & Hv2).
+      destruct (nth_error (m_heap (st_mem st)) oid) as [o|] eqn:Ho; [|apply nth_error_None in Ho; lia].
+      destruct (report_post st oid o I Ho) as (I1 & P1 & H1 & R1).
+      destruct (report st oid) as [st1 r] eqn:Er. simpl in *.
+      assert (Hv2' : Forall (fun x => (x < length (m_heap (st_mem st1)))%nat) rest).
+      { rewrite (p_len _ _ P1). exact Hv2. }
+      destruct (IH st1 I1 Hv2') as (I2 & P2 & H2 & R2).
+      destruct (report_all st1 rest) as [st2 rs] eqn:Era. simpl in *.
+      splits; [exact I2|eapply pres_trans; eauto|rewrite H2, H1, <- app_assoc; reflexivity|].
+      constructor; [exists o; split; [exact Ho|exact R1]|].
+      (* the remaining objects are described relative to [st]: same shape and keys *)
+      clear - R2 P1. revert R2. generalize rs. induction rest as [|x xs IHx]; intros rs' H; inversion H; subst; constructor.
+      + destruct H2 as (o1 & O1 & O2). destruct (pres_heap_back _ _ _ _ P1 O1) as (o0 & O0 & S0 & E0).
+        exists o0. split; [exact O0|]. rewrite <- (p_locked _ _ P1).
+        destruct o0 as [a|a], o1 as [b|b]; simpl in S0, E0; try contradiction; simpl in *.
+        * destruct S0 as (S1 & S2 & S3 & S4 & S5 & S6). rewrite S1, S2, S3, S4, S5, S6, E0. exact O2.
+        * destruct S0 as (S1 & S2). rewrite S1, S2. exact O2.
+      + apply IHx. assumption.
+  Qed.
+End reports.
+
+(* ------------------------------------------------------------- lock / unlock *)
+
+(** heaps that differ only in clear texts *)
+Definition heap_rel (h h' : list mobj) : Prop :=
+  length h' = length h /\
+  forall i o, nth_error h i = Some o ->
+    exists o', nth_error h' i = Some o' /\ same_shape o o' /\ enc_same o o' /\ (forall D, obj_ok D o -> obj_ok D o').
+
+Lemma heap_rel_refl h : heap_rel h h.
+Proof. split; [reflexivity|]. intros i o H. exists o. auto using same_shape_refl, enc_same_refl. Qed.
+
+Lemma heap_rel_trans a b c : heap_rel a b -> heap_rel b c -> heap_rel a c.
+Proof.
+  intros (L1 & H1) (L2 & H2). split; [congruence|]. intros i o Ho.
+  destruct (H1 i o Ho) as (o1 & A1 & A2 & A3 & A4). destruct (H2 i o1 A1) as (o2 & B1 & B2 & B3 & B4).
+  exists o2. splits; eauto using same_shape_trans, enc_same_trans.
+Qed.
+
+Lemma clear_ct_ok D o : obj_ok D o -> obj_ok D (clear_ct o).
+Proof.
+  destruct o as [ma|sa]; simpl.
+  - intros ((K1 & K2) & H). split; [split; simpl; [exact K1|discriminate]|]. exact H.
+  - intros (H1 & H2). split; [exact H1|discriminate].
+Qed.
+
+Lemma heap_rel_clear h i o : nth_error h i = Some o -> heap_rel h (list_set h i (clear_ct o)).
+Proof.
+  intros Ho. split; [apply length_list_set|]. intros j x Hx. rewrite nth_error_list_set.
+  destruct (Nat.eqb_spec j i) as [->|].
+  - pose proof (nth_error_Some_lt _ _ _ Ho). destruct (Nat.ltb_spec i (length h)); [|lia].
+    rewrite Ho in Hx. inversion Hx. subst x. exists (clear_ct o). splits; [reflexivity| | |intros D; apply clear_ct_ok].
+    + destruct o; simpl; tauto.
+    + destruct o; simpl; reflexivity.
+  - exists x. splits; auto using same_shape_refl, enc_same_refl.
+Qed.
+
+Lemma lock_heap_rel (l : list ((scope * akey) * nat)) : forall h,
+  heap_rel h (fold_left (fun h kv => match nth_error h (snd kv) with
+                                     | Some o => list_set h (snd kv) (clear_ct o)
+                                     | None => h end) l h).
+Proof.
+  induction l as [|kv l IH]; intros h; simpl; [apply heap_rel_refl|].
+  destruct (nth_error h (snd kv)) as [o|] eqn:E; [|apply IH].
+  eapply heap_rel_trans; [apply heap_rel_clear; exact E|apply IH].
+Qed.
+
+Section locking.
+  Context (seed : N).
+
+  (** replacing heap, cached accounts and the lock flag consistently *)
+  Lemma Inv0_reheap lk lk' mlk st h' accts' :
+    Inv0 seed lk st -> heap_rel (m_heap (st_mem st)) h' ->
+    accts_static (st_disk st) lk' (mkMem mlk (m_pass (st_mem st)) (m_scopes (st_mem st)) accts' (m_addrs (st_mem st))
+                                          (m_queue (st_mem st)) (m_pk (st_mem st)) h' (m_handles (st_mem st))) ->
+    Inv0 seed lk' (mkState (st_disk st)
+                           (mkMem mlk (m_pass (st_mem st)) (m_scopes (st_mem st)) accts' (m_addrs (st_mem st))
+                                  (m_queue (st_mem st)) (m_pk (st_mem st)) h' (m_handles (st_mem st)))).
+  Proof.
+    intros I (HL & HR) HA. destruct st as [D M]. destruct I. simpl in *.
+    constructor; unfinv; try assumption.
+    - intros oid o H. destruct (nth_error (m_heap M) oid) as [o0|] eqn:E.
+      + destruct (HR oid o0 E) as (o1 & A1 & _ & _ & A4). rewrite H in A1. inversion A1. subst o1. apply A4. eauto.
+      + apply nth_error_None in E. apply nth_error_Some_lt in H. lia.
+    - intros s k oid H. destruct (i_cache0 s k oid H) as (o & C1 & C2 & C3 & C4).
+      destruct (HR oid o C1) as (o1 & A1 & A2 & _). exists o1. destruct (same_shape_akey _ _ A2) as (E1 & E2).
+      splits; try congruence. eapply same_shape_field; eauto.
+    - intros s oid b i H. destruct (i_queue0 s oid b i H) as (ma & Q1 & Q2 & Q3 & Q4 & Q5 & Q6).
+      destruct (HR oid _ Q1) as (o1 & A1 & A2 & _). destruct o1 as [mb|]; simpl in A2; [|contradiction].
+      destruct A2 as (S1 & S2 & _ & _ & S5 & _). exists mb. rewrite <- S1, <- S2, <- S5. splits; assumption.
+    - intros h H. rewrite HL. eauto.
+  Qed.
+
+  Lemma lock_all_post lk st :
+    Inv0 seed lk st ->
+    Inv0 seed true (lock_all st) /\ m_locked (st_mem (lock_all st)) = true /\
+    st_disk (lock_all st) = st_disk st /\ m_queue (st_mem (lock_all st)) = m_queue (st_mem st) /\
+    m_accts (st_mem (lock_all st)) = amap clear_priv (m_accts (st_mem st)) /\
+    heap_rel (m_heap (st_mem st)) (m_heap (st_mem (lock_all st))) /\
+    m_handles (st_mem (lock_all st)) = m_handles (st_mem st).
+  Proof.
+    intros I. unfold lock_all. unf.
+    pose proof (lock_heap_rel (m_addrs (st_mem st)) (m_heap (st_mem st))) as HR.
+    splits; try reflexivity; try exact HR.
+    apply (Inv0_reheap lk true true st _ _ I HR).
+    intros s a ai H. simpl in H. rewrite aget_amap in H.
+    destruct (aget sa_dec (m_accts (st_mem st)) (s, a)) as [ai0|] eqn:E; [|discriminate]. inversion H. subst ai.
+    destruct (i_accts _ _ _ I _ _ _ E) as (row & R1 & R2 & R3 & R4 & R5 & R6 & R7).
+    exists row. simpl. splits; assumption || reflexivity.
+  Qed.
+End locking.
+
+(** every cached account has its private key in memory *)
+Definition filled (st : state) : Prop :=
+  forall k ai, aget sa_dec (m_accts (st_mem st)) k = Some ai -> ai_priv ai <> None.
+
+(** what the deriveOnUnlock loop does to the heap: shapes stay, present keys
+    stay, and the objects named in the processed queue now have their key *)
+Definition filled_rel (q : list (scope * nat * N * N)) (h h' : list mobj) : Prop :=
+  length h' = length h /\
+  forall i o, nth_error h i = Some o ->
+    exists o', nth_error h' i = Some o' /\ same_shape o o' /\
+      match o, o' with
+      | MKey a, MKey b => (ma_enc a <> None -> ma_enc b <> None) /\
+                          (forall s br idx, In (s, i, br, idx) q -> ma_enc b <> None)
+      | MScript a, MScript b => sa_enc a = sa_enc b
+      | _, _ => False
+      end.
+
+Section unlocking.
+  Context (seed : N).
+
+  Lemma pop_queue_post lk st q' :
+    Inv0 seed lk st -> incl q' (m_queue (st_mem st)) ->
+    Inv0 seed lk (upd_mem (fun m => set_m_queue q' m) st).
+  Proof.
+    intros I Hi. destruct st as [D M]. unf. destruct I. constructor; unfinv; try assumption.
+    intros s oid b i H. apply i_queue0. apply Hi. exact H.
+  Qed.
+
+  Lemma derive_queue_post q : forall st,
+    Inv0 seed false st -> HC st -> filled st -> m_queue (st_mem st) = q ->
+    exists st', derive_queue st q = Ok st' tt /\ Inv0 seed false st' /\
+      m_queue (st_mem st') = [] /\ st_disk st' = st_disk st /\ m_accts (st_mem st') = m_accts (st_mem st) /\
+      m_locked (st_mem st') = m_locked (st_mem st) /\ m_handles (st_mem st') = m_handles (st_mem st) /\
+      filled_rel q (m_heap (st_mem st)) (m_heap (st_mem st')).
+  Proof.
+    induction q as [|[[[s oid] b] i] rest IH]; intros st I HCst HF Hq.
+    - exists st. simpl. splits; try reflexivity; try assumption. split; [reflexivity|].
+      intros j o Ho. exists o. split; [exact Ho|split; [apply same_shape_refl|]].
+      destruct o; [split; [tauto|intros ? ? ? []]|reflexivity].
+    - assert (Hin : In (s, oid, b, i) (m_queue (st_mem st))) by (rewrite Hq; left; reflexivity).
+      destruct (i_queue _ _ _ I _ _ _ _ Hin) as (ma & Q1 & Q2 & Q3 & Q4 & Q5 & Q6).
+      cbn [derive_queue]. unfold heap_get. rewrite Q1.
+      destruct (aget scope_eq_dec (m_scopes (st_mem st)) s) as [sch|] eqn:Es; [|discriminate].
+      pose proof (HCst oid ma Q1 Q2) as Hc. rewrite Q3 in Hc.
+      destruct (aget sa_dec (m_accts (st_mem st)) (s, dp_iacct (ma_path ma))) as [ai|] eqn:Ec; [|discriminate].
+      unfold load_acct. rewrite Ec. cbn [bind].
+      destruct (ai_priv ai) as [p|] eqn:Ep; [|exfalso; exact (HF _ _ Ec Ep)].
+      simpl is_some. rewrite (derive_key_priv_ok _ _ _ _ Ep).
+      (* the filled object *)
+      pose proof (i_accts _ _ _ I _ _ _ Ec) as Hai.
+      pose proof (ai_static_wf _ _ _ _ _ _ (i_disk _ _ _ I) Hai) as Hwf.
+      destruct (i_heap _ _ _ I _ _ Q1) as (HK & Hch). rewrite Q2 in Hch.
+      destruct Hch as (row & sch' & coin & C1 & C2 & C3 & C4 & C5).
+      destruct Hai as (row' & R1 & _ & R3 & _). rewrite Q3 in C1. rewrite R1 in C1. inversion C1. subst row'.
+      assert (Hk : path_skey p b i = skey_of_pub (ma_pub ma)).
+      { rewrite C3, Q4, Q5, (Hwf p Ep), R3. reflexivity. }
+      set (mb := set_keys (Some (Priv (path_skey p b i))) (Some (Priv (path_skey p b i))) ma).
+      assert (Hobj : obj_ok (st_disk st) (MKey mb)).
+      { simpl. split.
+        - unfold keys_ok. simpl. rewrite Hk. split; intros x Hx; inversion Hx; reflexivity.
+        - rewrite Q2. exists row, sch', coin. simpl. rewrite Q3. rewrite Q3 in C2. splits; assumption. }
+      assert (Hshape : same_shape (MKey ma) (MKey mb)) by (simpl; tauto).
+      pose proof (heap_set_post seed false st oid (MKey ma) (MKey mb) I Q1 Hshape Hobj) as I1.
+      set (st1 := heap_set st oid (MKey mb)) in *.
+      assert (I2 : Inv0 seed false (upd_mem (fun m => set_m_queue (tl (m_queue m)) m) st1)).
+      { assert (Hqq : m_queue (st_mem st1) = m_queue (st_mem st)) by (unfold st1; unf; reflexivity).
+        replace (upd_mem (fun m => set_m_queue (tl (m_queue m)) m) st1)
+          with (upd_mem (fun m => set_m_queue (tl (m_queue (st_mem st1))) m) st1) by reflexivity.
+        apply pop_queue_post; [exact I1|]. rewrite Hqq, Hq. simpl. apply incl_tl, incl_refl. }
+      set (st2 := upd_mem (fun m => set_m_queue (tl (m_queue m)) m) st1) in *.
+      assert (Hh2 : m_heap (st_mem st2) = list_set (m_heap (st_mem st)) oid (MKey mb)) by (unfold st2, st1; unf; reflexivity).
+      assert (Ha2 : m_accts (st_mem st2) = m_accts (st_mem st)) by (unfold st2, st1; unf; reflexivity).
+      assert (Hq2 : m_queue (st_mem st2) = rest) by (unfold st2, st1; unf; rewrite Hq; reflexivity).
+      assert (HC2 : HC st2).
+      { intros j mc Hj Hi. rewrite Hh2, nth_error_list_set in Hj. rewrite Ha2.
+        destruct (Nat.eqb_spec j oid) as [->|].
+        - destruct (Nat.ltb oid (length (m_heap (st_mem st)))); [|discriminate]. inversion Hj. subst mc.
+          simpl. apply (HCst oid ma Q1 Q2).
+        - apply (HCst j mc Hj Hi). }
+      assert (HF2 : filled st2) by (intros k x Hx; rewrite Ha2 in Hx; eauto).
+      destruct (IH st2 I2 HC2 HF2 Hq2) as (st3 & D3 & I3 & Q3' & K3 & A3 & L3 & H3 & (FL & FR)).
+      exists st3. split; [exact D3|]. splits; try assumption. split.
+      + rewrite FL, Hh2. apply length_list_set.
+      + intros j o Ho.
+        assert (Hj : exists o1, nth_error (m_heap (st_mem st2)) j = Some o1 /\ same_shape o o1 /\
+                       match o, o1 with
+                       | MKey a0, MKey b0 => (ma_enc a0 <> None -> ma_enc b0 <> None) /\ (j = oid -> ma_enc b0 <> None)
+                       | MScript a0, MScript b0 => sa_enc a0 = sa_enc b0
+                       | _, _ => False end).
+        { rewrite Hh2, nth_error_list_set. destruct (Nat.eqb_spec j oid) as [->|Hne].
+          - pose proof (nth_error_Some_lt _ _ _ Q1). destruct (Nat.ltb_spec oid (length (m_heap (st_mem st)))); [|lia].
+            rewrite Q1 in Ho. inversion Ho. subst o. exists (MKey mb). split; [reflexivity|split; [exact Hshape|]].
+            simpl. split; intros; discriminate.
+          - exists o. split; [exact Ho|split; [apply same_shape_refl|]]. destruct o; [split; [tauto|intros; contradiction]|reflexivity]. }
+        destruct Hj as (o1 & J1 & J2 & J3). destruct (FR j o1 J1) as (o2 & F1 & F2 & F3).
+        exists o2. split; [exact F1|split; [eapply same_shape_trans; eauto|]].
+        destruct o as [a0|a0], o1 as [b0|b0], o2 as [c0|c0]; simpl in *; try contradiction; try congruence.
+        destruct J3 as (J3a & J3b). destruct F3 as (F3a & F3b). split; [tauto|].
+        intros s0 br idx [Heq|Hin']; [inversion Heq; subst; tauto|eauto].
+  Qed.
+End unlocking.
+
+(* ------------------------------------------------ 5. the invariants of a run *)
+
+(** availability: a chain address of an account that has a private key holds
+    its own private key, or the manager is locked and the address waits in
+    the unlock queue *)
+Definition avail_obj (st : state) (oid : nat) : Prop :=
+  forall ma row, nth_error (m_heap (st_mem st)) oid = Some (MKey ma) -> ma_imported ma = false ->
+    aget sa_dec (d_accts (st_disk st)) (ma_scope ma, dp_iacct (ma_path ma)) = Some row -> ar_priv row <> None ->
+    ma_enc ma <> None \/
+    (m_locked (st_mem st) = true /\
+     In (ma_scope ma, oid, dp_branch (ma_path ma), dp_index (ma_path ma)) (m_queue (st_mem st))).
+
+Definition Avail (st : state) : Prop := forall oid, avail_obj st oid.
+
+Definition Good (seed : N) (st : state) : Prop :=
+  Inv0 seed (m_locked (st_mem st)) st /\ NextOk st /\ HC st.
+
+Lemma Avail_grow st st' : Avail st -> ext st st' -> new_fresh st st' -> Avail st'.
+Proof.
+  intros H E N oid ma row Hn Hi Hr Hp.
+  destruct (Nat.ltb_spec oid (length (m_heap (st_mem st)))) as [Hlt|Hge].
+  - destruct (nth_error (m_heap (st_mem st)) oid) as [o|] eqn:Eo; [|apply nth_error_None in Eo; lia].
+    pose proof (ext_heap _ _ E _ _ Eo) as Eo'. rewrite Hn in Eo'. inversion Eo'. subst o.
+    rewrite (ext_accts _ _ E) in Hr. rewrite (ext_locked _ _ E).
+    destruct (H oid ma row Eo Hi Hr Hp) as [X|(X & Y)]; [left; exact X|right; split; [exact X|apply (ext_queue _ _ E); exact Y]].
+  - assert (Hr' : (length (m_heap (st_mem st)) <= oid < length (m_heap (st_mem st')))%nat).
+    { split; [exact Hge|]. eapply nth_error_Some_lt; eauto. }
+    destruct (N oid Hr' ma Hn Hi) as (s & a & (ma' & F1 & F2 & F3 & F4 & F5) & _).
+    rewrite Hn in F1. inversion F1. subst ma'. rewrite F3, F4 in *. exact (F5 row Hr Hp).
+Qed.
+
+Lemma Avail_pres st st' : pres st st' -> Avail st -> Avail st'.
+Proof.
+  intros P H oid ma row Hn Hi Hr Hp. destruct (pres_heap_back _ _ _ _ P Hn) as (o & Ho & S & E).
+  destruct o as [mb|]; simpl in S, E; [|contradiction]. destruct S as (S1 & S2 & _ & _ & S5 & _).
+  rewrite (p_disk _ _ P), <- S1, <- S2 in Hr. rewrite (p_locked _ _ P), (p_queue _ _ P), <- S1, <- S2, <- E.
+  apply (H oid mb row Ho); congruence.
+Qed.
+
+Lemma Good_grow seed st st' :
+  Good seed st -> Inv0 seed (m_locked (st_mem st)) st' -> ext st st' -> new_fresh st st' -> NextOk st' ->
+  Good seed st'.
+Proof.
+  intros (I & N & H) I' E F N'. unfold Good. rewrite (ext_locked _ _ E).
+  splits; [exact I'|exact N'|eapply HC_grow; eauto].
+Qed.
+
+Lemma Good_pres seed st st' :
+  Good seed st -> Inv0 seed (m_locked (st_mem st)) st' -> pres st st' -> Good seed st'.
+Proof.
+  intros (I & N & H) I' P. unfold Good. rewrite (p_locked _ _ P).
+  splits; [exact I'|eapply NextOk_pres; eauto|eapply HC_pres; eauto].
+Qed.
+
+(** Operations the theorems range over: account creation is only considered
+    for scopes whose last-account counter is initialised and not about to wrap
+    (see the finding about NewScopedKeyManager). *)
+Definition last_ok (d : disk) (s : scope) : bool :=
+  match aget scope_eq_dec (d_last d) s with
+  | Some l => l + 1 <? 2147483647
+  | None => false
+  end.
+
+Definition adm (st : state) (o : op) : bool :=
+  match o with
+  | ONewAccount s _ | OImportXpub s _ _ _ _ _ => last_ok (st_disk st) s
+  | _ => true
+  end.
+
+(** disk growth by account / scope creation *)
+Record dgrow (D D' : disk) : Prop := mkDgrow {
+  g_accts : forall k row, aget sa_dec (d_accts D) k = Some row -> aget sa_dec (d_accts D') k = Some row;
+  g_scopes : forall s v, aget scope_eq_dec (d_scopes D) s = Some v -> aget scope_eq_dec (d_scopes D') s = Some v;
+  g_addrs : d_addrs D' = d_addrs D;
+  g_next : forall k n, aget sab_dec (d_next D) k = Some n -> aget sab_dec (d_next D') k = Some n;
+}.
+
+Lemma obj_ok_grow D D' o : dgrow D D' -> obj_ok D o -> obj_ok D' o.
+Proof.
+  intros G. destruct o as [ma|sa]; simpl; [|tauto]. intros (K & H). split; [exact K|].
+  destruct (ma_imported ma).
+  - destruct H as (n & sch & coin & H1 & H2 & H3 & H4 & H5 & H6). exists n, sch, coin.
+    splits; try assumption. apply (g_scopes _ _ G). exact H5.
+  - destruct H as (row & sch & coin & H1 & H2 & H3). exists row, sch, coin.
+    split; [apply (g_accts _ _ G); exact H1|split; [apply (g_scopes _ _ G); exact H2|exact H3]].
+Qed.
+
+Lemma Inv0_dgrow seed lk D M D' :
+  Inv0 seed lk (mkState D M) -> dgrow D D' -> disk_ok seed D' ->
+  (forall s a ai, aget sa_dec (m_accts M) (s, a) = Some ai ->
+     disk_next D' s a false = disk_next D s a false /\ disk_next D' s a true = disk_next D s a true) ->
+  Inv0 seed lk (mkState D' M).
+Proof.
+  intros I G HD _. destruct I. simpl in *. constructor; unfinv; try assumption.
+  - intros s sch H. destruct (i_scopes0 s sch H) as (coin & Hc). exists coin. apply (g_scopes _ _ G). exact Hc.
+  - intros s a ai H. destruct (i_accts0 s a ai H) as (row & R1 & R). exists row. split; [apply (g_accts _ _ G); exact R1|exact R].
+  - intros oid o H. eapply obj_ok_grow; eauto.
+  - intros s k oid H. destruct (i_cache0 s k oid H) as (o & C1 & C2 & C3 & C4). exists o. splits; try assumption.
+    destruct o as [ma|]; simpl in *; [|exact Logic.I]. intros Hi row Hrow.
+    destruct (i_heap0 oid _ C1) as (_ & Hc). rewrite Hi in Hc. destruct Hc as (row0 & sch & coin & H1 & _).
+    pose proof (g_accts _ _ G _ _ H1) as H1'. rewrite Hrow in H1'. inversion H1'. subst row0. apply (C4 Hi row H1).
+  - intros s p k H. destruct (i_pk0 s p k H) as (row & R1 & R2). exists row. split; [apply (g_accts _ _ G); exact R1|exact R2].
+Qed.
+
+(* --------------------------------------------- what a reported address says *)
+
+Definition rinfo_ok (D : disk) (lkd : bool) (r : rinfo) : Prop :=
+  match r with
+  | RKey i =>
+    (forall k, r_priv i = POk k -> k = Priv (skey_of_pub (r_pub i))) /\
+    (lkd = true -> r_priv i = PErr ELocked) /\
+    if r_imported i then
+      exists n, r_pub i = Pub (imp_key n) /\ r_known i = false /\ r_iacct i = imported_acct /\
+                (lkd = false -> r_priv i = POk (Priv (imp_key n)))
+    else
+      exists row sch coin,
+        aget sa_dec (d_accts D) (r_scope i, r_iacct i) = Some row /\
+        aget scope_eq_dec (d_scopes D) (r_scope i) = Some (sch, coin) /\
+        r_known i = true /\ dp_iacct (r_path i) = r_iacct i /\
+        r_pub i = Pub (path_skey (ar_pub row) (dp_branch (r_path i)) (dp_index (r_path i))) /\
+        r_fmt i = row_fmt sch row (dp_branch (r_path i)) /\
+        r_internal i = (dp_branch (r_path i) =? internal_branch)
+  | RScr s sc v => (lkd = false -> v = SOk sc) /\ (lkd = true -> v = SErr ELocked)
+  end.
+
+Lemma rinfo_desc_ok D lkd o r : obj_ok D o -> rinfo_desc lkd o r -> rinfo_ok D lkd r.
+Proof.
+  destruct o as [ma|sa]; simpl; intros H ->; simpl.
+  - destruct H as ((K1 & K2) & H). splits.
+    + destruct lkd; [discriminate|]. destruct (ma_enc ma); [|discriminate]. intros k Hk. inversion Hk. reflexivity.
+    + intros ->. reflexivity.
+    + destruct (ma_imported ma) eqn:Ei.
+      * destruct H as (n & sch & coin & H1 & H2 & H3 & _). exists n. rewrite H3. splits; try reflexivity; try assumption.
+        intros ->. rewrite H2, H1. reflexivity.
+      * destruct H as (row & sch & coin & H1 & H2 & H3 & H4 & H5). exists row, sch, coin. splits; try assumption; reflexivity.
+  - split; intros ->; reflexivity.
+Qed.
+
+(** the reported Account field is the account key's child number *)
+Definition rinfo_field_ok (D : disk) (r : rinfo) : Prop :=
+  match r with
+  | RKey i => r_imported i = false ->
+              forall row, aget sa_dec (d_accts D) (r_scope i, r_iacct i) = Some row ->
+                          dp_acct (r_path i) = child_num (ar_pub row)
+  | RScr _ _ _ => True
+  end.
+
+Lemma rinfo_desc_field D lkd o r : acct_field_ok D o -> rinfo_desc lkd o r -> rinfo_field_ok D r.
+Proof.
+  destruct o as [ma|sa]; simpl; intros H ->; simpl; [|exact Logic.I].
+  intros Hi. rewrite Hi. exact (H Hi).
+Qed.
+
+(** the address a report stands for *)
+Definition rinfo_akey (r : rinfo) : akey :=
+  match r with
+  | RKey i => addr_key (AKey (r_fmt i) (r_pub i))
+  | RScr _ sc _ => KScript sc
+  end.
+
+Lemma rinfo_desc_akey lkd o r : rinfo_desc lkd o r -> rinfo_akey r = obj_akey o.
+Proof. destruct o; simpl; intros ->; reflexivity. Qed.
+
+Section ops.
+  Context (seed : N).
+
+  (** reporting the objects an operation returns, after a growth step *)
+  Lemma grow_then_report st st1 oids :
+    Good seed st -> Inv0 seed (m_locked (st_mem st)) st1 -> ext st st1 -> new_fresh st st1 -> NextOk st1 ->
+    Forall (fun oid => (oid < length (m_heap (st_mem st1)))%nat) oids ->
+    let st2 := fst (report_all st1 oids) in
+    Good seed st2 /\ (Avail st -> Avail st2) /\ st_disk st2 = st_disk st1 /\
+    m_locked (st_mem st2) = m_locked (st_mem st) /\
+    Forall2 (fun oid r => exists o, nth_error (m_heap (st_mem st1)) oid = Some o /\
+                                    rinfo_desc (m_locked (st_mem st)) o r /\
+                                    rinfo_ok (st_disk st1) (m_locked (st_mem st)) r)
+            oids (snd (report_all st1 oids)).
+  Proof.
+    intros G I1 E1 N1 X1 Hv st2. unfold st2. clear st2.
+    pose proof (Good_grow seed st st1 G I1 E1 N1 X1) as G1.
+    destruct (report_all_post seed (m_locked (st_mem st)) oids st1 I1 Hv) as (I2 & P2 & H2 & R2).
+    assert (Hl : m_locked (st_mem st1) = m_locked (st_mem st)) by (apply (ext_locked _ _ E1)).
+    splits.
+    - apply (Good_pres seed st1); [exact G1|rewrite Hl; exact I2|exact P2].
+    - intros A. eapply Avail_pres; [exact P2|]. eapply Avail_grow; eauto.
+    - apply (p_disk _ _ P2).
+    - rewrite (p_locked _ _ P2). exact Hl.
+    - rewrite Hl in R2. eapply Forall2_imp; [|exact R2]. intros oid r (o & O1 & O2).
+      exists o. splits; try assumption. eapply rinfo_desc_ok; [|exact O2]. apply (i_heap _ _ _ I1 _ _ O1).
+  Qed.
+End ops.
+
+Lemma Forall2_compose {A B C} (P : A -> B -> Prop) (Q : A -> C -> Prop) l1 l2 l3 :
+  Forall2 P l1 l2 -> Forall2 Q l1 l3 -> Forall2 (fun c b => exists a, P a b /\ Q a c) l3 l2.
+Proof.
+  intros H. revert l3. induction H; intros l3 H3; inversion H3; subst; constructor; eauto.
+Qed.
+
+Lemma chain_obj_at_lt st oid s a b i : chain_obj_at st oid s a b i -> (oid < length (m_heap (st_mem st)))%nat.
+Proof. intros (ma & _ & _ & _ & H & _). eapply nth_error_Some_lt; eauto. Qed.
+
+(** the report of a chain object *)
+Definition chain_report (r : rinfo) (s : scope) (a b idx : N) : Prop :=
+  exists i, r = RKey i /\ r_imported i = false /\ r_scope i = s /\ r_iacct i = a /\
+            r_path i = mkPath a (dp_acct (r_path i)) b idx (dp_fp (r_path i)).
+
+Lemma chain_report_of st oid s a b idx o lkd r :
+  chain_obj_at st oid s a b idx -> nth_error (m_heap (st_mem st)) oid = Some o -> rinfo_desc lkd o r ->
+  chain_report r s a b idx.
+Proof.
+  intros (ma & row & sch & coin & H1 & H2 & H3 & H4 & H5 & H6 & _) Ho Hd.
+  rewrite H1 in Ho. inversion Ho. subst o. simpl in Hd. subst r. eexists. split; [reflexivity|].
+  simpl. rewrite H2. simpl. splits; try assumption; try reflexivity.
+  destruct (ma_path ma); simpl in *. subst. reflexivity.
+Qed.
+
+Section ops2.
+  Context (seed : N).
+
+  Lemma step_next b st s a internal n :
+    Good seed st ->
+    let st' := fst (step b st (ONext s a internal n)) in
+    Good seed st' /\ (Avail st -> Avail st') /\ m_locked (st_mem st') = m_locked (st_mem st) /\
+    match snd (step b st (ONext s a internal n)) with
+    | OutAddrs rs =>
+      disk_next (st_disk st') s a internal = disk_next (st_disk st) s a internal + n /\
+      (forall s' a' i', (s', a', i') <> (s, a, internal) ->
+         disk_next (st_disk st') s' a' i' = disk_next (st_disk st) s' a' i') /\
+      Forall2 (fun r idx => rinfo_ok (st_disk st') (m_locked (st_mem st)) r /\ rinfo_field_ok (st_disk st') r /\
+                            chain_report r s a (if internal then internal_branch else external_branch) idx)
+              rs (index_range (disk_next (st_disk st) s a internal) (N.to_nat n))
+    | OutErr _ => st_disk st' = st_disk st
+    | _ => False
+    end.
+  Proof.
+    intros G. destruct G as (I & NX & HCs). assert (G : Good seed st) by exact (conj I (conj NX HCs)).
+    cbn [step]. unfold with_scope.
+    destruct (aget scope_eq_dec (m_scopes (st_mem st)) s) as [sch|] eqn:Es; [|simpl; splits; auto].
+    pose proof (next_addresses_post seed _ st s sch a n internal I eq_refl (aget_In _ _ _ _ Es) NX) as H.
+    destruct (next_addresses st s sch a n internal) as [st1 oids|st1 e].
+    - destruct H as (I1 & E1 & N1 & X1 & D1 & D2 & F).
+      assert (Hv : Forall (fun oid => (oid < length (m_heap (st_mem st1)))%nat) oids).
+      { clear - F. induction F; constructor; [|assumption]. destruct H as (H & _). eapply chain_obj_at_lt; eauto. }
+      destruct (grow_then_report seed st st1 oids G I1 E1 N1 X1 Hv) as (G2 & A2 & K2 & L2 & R2).
+      destruct (report_all st1 oids) as [st2 rs] eqn:Er. simpl in *.
+      splits; try assumption; try (rewrite K2; assumption).
+      pose proof (Forall2_compose _ _ _ _ _ F R2) as FC. eapply Forall2_imp; [|exact FC].
+      intros r idx (oid & (C1 & (o1 & O1 & O2)) & (o & Ho & Hd & Hok)). rewrite K2. splits; [exact Hok| |].
+      + rewrite O1 in Ho. inversion Ho. subst o1. eapply rinfo_desc_field; eauto.
+      + eapply chain_report_of; eauto.
+    - destruct H as (I1 & E1 & N1 & X1 & D1). simpl.
+      splits; [eapply Good_grow; eauto|intros A; eapply Avail_grow; eauto|apply (ext_locked _ _ E1)|exact D1].
+  Qed.
+
+  Lemma step_extend b st s a internal last :
+    Good seed st ->
+    let st' := fst (step b st (OExtend s a internal last)) in
+    Good seed st' /\ (b = true -> Avail st -> Avail st') /\ m_locked (st_mem st') = m_locked (st_mem st) /\
+    match snd (step b st (OExtend s a internal last)) with
+    | OutOk =>
+      disk_next (st_disk st') s a internal = N.max (disk_next (st_disk st) s a internal) (last + 1) /\
+      (forall s' a' i', (s', a', i') <> (s, a, internal) ->
+         disk_next (st_disk st') s' a' i' = disk_next (st_disk st) s' a' i')
+    | OutErr _ => st_disk st' = st_disk st
+    | _ => False
+    end.
+  Proof.
+    intros G. destruct G as (I & NX & HCs). assert (G : Good seed st) by exact (conj I (conj NX HCs)).
+    cbn [step]. unfold with_scope.
+    destruct (aget scope_eq_dec (m_scopes (st_mem st)) s) as [sch|] eqn:Es; [|simpl; splits; auto].
+    pose proof (extend_addresses_post seed _ b st s sch a last internal I eq_refl (aget_In _ _ _ _ Es) NX) as H.
+    destruct (extend_addresses b st s sch a last internal) as [st1 u|st1 e]; simpl.
+    - destruct H as (I1 & E1 & N1 & NC1 & X1 & D1 & D2).
+      assert (HC1 : HC st1) by (eapply HC_grow_cached; eauto).
+      splits; try assumption.
+      + unfold Good. rewrite (ext_locked _ _ E1). splits; assumption.
+      + intros Hb A. eapply Avail_grow; eauto.
+      + apply (ext_locked _ _ E1).
+    - destruct H as (I1 & E1 & N1 & X1 & D1).
+      splits; [eapply Good_grow; eauto|intros _ A; eapply Avail_grow; eauto|apply (ext_locked _ _ E1)|exact D1].
+  Qed.
+End ops2.
+
+(* ------------------------------------------ next indices through the lookups *)
+
+Definition res_next {A} (r : res A) : Prop := match r with Ok st' _ | Err st' _ => NextOk st' end.
+
+Lemma NextOk_same st st' :
+  st_disk st' = st_disk st -> m_accts (st_mem st') = m_accts (st_mem st) -> NextOk st -> NextOk st'.
+Proof. intros Hd Ha H s a ai Hc. rewrite Ha in Hc. rewrite Hd. exact (H s a ai Hc). Qed.
+
+Section next_lookup.
+  Context (seed : N) (lk : bool).
+
+  Lemma key_to_managed_next st s sch key path ai : NextOk st -> res_next (key_to_managed st s sch key path ai).
+  Proof.
+    intros H. pose proof (key_to_managed_disk st s sch key path ai) as Hd.
+    pose proof (key_to_managed_accts st s sch key path ai) as Ha.
+    destruct (key_to_managed st s sch key path ai); simpl in *; eapply NextOk_same; eauto.
+  Qed.
+
+  Lemma chain_row_to_managed_next st s sch a b i :
+    Inv0 seed lk st -> m_locked (st_mem st) = lk -> In (s, sch) (m_scopes (st_mem st)) -> NextOk st ->
+    res_next (chain_row_to_managed st s sch a b i).
+  Proof.
+    intros I Hl Hs HN. unfold chain_row_to_managed.
+    pose proof (NextOk_load seed lk st s sch a I Hl Hs HN) as H1.
+    destruct (load_acct st s sch a) as [st1 ai|st1 e]; cbn [bind]; [|exact H1]. cbv zeta.
+    destruct (derive_key _ _ _ _); try exact H1. apply key_to_managed_next. exact H1.
+  Qed.
+
+  Lemma load_and_cache_next st s sch k :
+    Inv0 seed lk st -> m_locked (st_mem st) = lk -> In (s, sch) (m_scopes (st_mem st)) -> NextOk st ->
+    res_next (load_and_cache st s sch k).
+  Proof.
+    intros I Hl Hs HN. unfold load_and_cache.
+    destruct (aget sk_dec (d_addrs (st_disk st)) (s, k)) as [row|]; [|exact HN].
+    assert (H1 : res_next (row_to_managed st s sch row)).
+    { destruct row as [a b i|pk prv|sc]; unfold row_to_managed, alloc; simpl.
+      - apply chain_row_to_managed_next; assumption.
+      - eapply NextOk_same; [| |exact HN]; reflexivity.
+      - eapply NextOk_same; [| |exact HN]; reflexivity. }
+    destruct (row_to_managed st s sch row) as [st1 oid|st1 e]; cbn [bind]; [|exact H1].
+    destruct (heap_get st1 oid); [|exact H1]. simpl. eapply NextOk_same; [| |exact H1]; unf; reflexivity.
+  Qed.
+
+  Lemma scoped_address_next st s sch k :
+    Inv0 seed lk st -> m_locked (st_mem st) = lk -> In (s, sch) (m_scopes (st_mem st)) -> NextOk st ->
+    res_next (scoped_address st s sch k).
+  Proof.
+    intros I Hl Hs HN. unfold scoped_address. destruct (aget sk_dec _ _); [exact HN|].
+    apply load_and_cache_next; assumption.
+  Qed.
+
+  Lemma mgr_address_next scopes : forall st k,
+    Inv0 seed lk st -> m_locked (st_mem st) = lk -> incl scopes (m_scopes (st_mem st)) -> NextOk st ->
+    res_next (mgr_address scopes st k).
+  Proof.
+    induction scopes as [|[s sch] rest IH]; intros st k I Hl Hin HN; simpl; [exact HN|].
+    assert (Hs : In (s, sch) (m_scopes (st_mem st))) by (apply Hin; left; reflexivity).
+    pose proof (scoped_address_next st s sch k I Hl Hs HN) as H1.
+    pose proof (scoped_address_post seed lk st s sch k I Hl Hs) as P1.
+    destruct (scoped_address st s sch k) as [st1 oid|st1 e]; simpl in *; [exact H1|].
+    destruct P1 as (I1 & E1 & _).
+    apply IH; try assumption.
+    - rewrite (ext_locked _ _ E1). exact Hl.
+    - rewrite (ext_mscopes _ _ E1). intros x Hx. apply Hin. right. exact Hx.
+  Qed.
+End next_lookup.
+
+Section ops3.
+  Context (seed : N).
+
+  Lemma found_at_lt st s k oid : found_at st s k oid -> (oid < length (m_heap (st_mem st)))%nat.
+  Proof. intros (o & H & _). eapply nth_error_Some_lt; eauto. Qed.
+
+  (** Manager.Address *)
+  Lemma step_lookup b st ad :
+    Good seed st ->
+    let st' := fst (step b st (OLookup ad)) in
+    Good seed st' /\ (Avail st -> Avail st') /\ m_locked (st_mem st') = m_locked (st_mem st) /\
+    st_disk st' = st_disk st /\
+    match snd (step b st (OLookup ad)) with
+    | OutAddrs [r] =>
+      rinfo_ok (st_disk st') (m_locked (st_mem st)) r /\ rinfo_field_ok (st_disk st') r /\
+      rinfo_akey r = addr_key ad
+    | OutErr _ => True
+    | _ => False
+    end.
+  Proof.
+    intros G. pose proof G as (I & NX & HCs). cbn [step].
+    pose proof (mgr_address_post seed _ (m_scopes (st_mem st)) st (addr_key ad) I eq_refl (incl_refl _)) as H.
+    pose proof (mgr_address_next seed _ (m_scopes (st_mem st)) st (addr_key ad) I eq_refl (incl_refl _) NX) as HN.
+    pose proof (mgr_address_disk (m_scopes (st_mem st)) st (addr_key ad)) as HD.
+    destruct (mgr_address (m_scopes (st_mem st)) st (addr_key ad)) as [st1 [s oid]|st1 e]; simpl in H, HN, HD.
+    - destruct H as (I1 & E1 & N1 & F1 & C1 & S1).
+      assert (Hv : Forall (fun x => (x < length (m_heap (st_mem st1)))%nat) [oid]).
+      { constructor; [eapply found_at_lt; eauto|constructor]. }
+      destruct (grow_then_report seed st st1 [oid] G I1 E1 N1 HN Hv) as (G2 & A2 & K2 & L2 & R2).
+      cbn [report_all] in G2, A2, K2, L2, R2.
+      destruct (report st1 oid) as [st2 r] eqn:Er. simpl in *.
+      inversion R2 as [|? ? ? ? (o & O1 & O2 & O3) Hnil]. subst.
+      destruct F1 as (o' & P1 & P2 & P3 & P4). rewrite O1 in P1. inversion P1. subst o'.
+      splits; try assumption; try congruence; try (rewrite K2; exact O3);
+        try (rewrite K2; eapply rinfo_desc_field; eauto);
+        try (rewrite (rinfo_desc_akey _ _ _ O2); exact P2).
+    - destruct H as (I1 & E1 & N1). simpl.
+      splits; [eapply Good_grow; eauto|intros A; eapply Avail_grow; eauto|apply (ext_locked _ _ E1)|exact HD|exact Logic.I].
+  Qed.
+End ops3.
+
+Section ops4.
+  Context (seed : N).
+
+  Lemma uncache_post lk st s k :
+    Inv0 seed lk st ->
+    Inv0 seed lk (upd_mem (fun m => set_m_addrs (adel sk_dec (m_addrs m) (s, k)) m) st).
+  Proof.
+    intros I. destruct st as [D M]. unf.
+    destruct I. constructor; unfinv; try assumption.
+    intros s' k' oid H. rewrite aget_adel in H. destruct (sk_dec (s', k') (s, k)); [discriminate|eauto].
+  Qed.
+
+  (** [pres] up to the address cache: enough for the run invariants *)
+  Lemma Good_uncache st s k :
+    Good seed st -> Good seed (upd_mem (fun m => set_m_addrs (adel sk_dec (m_addrs m) (s, k)) m) st).
+  Proof.
+    intros (I & N & H). pose proof (uncache_post _ st s k I) as I'. destruct st as [D M]. unf.
+    exact (conj I' (conj N H)).
+  Qed.
+
+  Lemma Avail_uncache st s k :
+    Avail st -> Avail (upd_mem (fun m => set_m_addrs (adel sk_dec (m_addrs m) (s, k)) m) st).
+  Proof. intros H. destruct st as [D M]. unf. exact H. Qed.
+
+  Lemma step_markused b st ad :
+    Good seed st ->
+    let st' := fst (step b st (OMarkUsed ad)) in
+    Good seed st' /\ (Avail st -> Avail st') /\ m_locked (st_mem st') = m_locked (st_mem st) /\
+    st_disk st' = st_disk st.
+  Proof.
+    intros G. pose proof G as (I & NX & HCs). cbn [step].
+    pose proof (mgr_address_post seed _ (m_scopes (st_mem st)) st (addr_key ad) I eq_refl (incl_refl _)) as H.
+    pose proof (mgr_address_next seed _ (m_scopes (st_mem st)) st (addr_key ad) I eq_refl (incl_refl _) NX) as HN.
+    pose proof (mgr_address_disk (m_scopes (st_mem st)) st (addr_key ad)) as HD.
+    destruct (mgr_address (m_scopes (st_mem st)) st (addr_key ad)) as [st1 [s oid]|st1 e]; simpl in H, HN, HD.
+    - destruct H as (I1 & E1 & N1 & _).
+      pose proof (Good_grow seed st st1 G I1 E1 N1 HN) as G1. simpl.
+      splits; [apply Good_uncache; exact G1|intros A; apply Avail_uncache; eapply Avail_grow; eauto| |].
+      + unf. apply (ext_locked _ _ E1).
+      + unf. exact HD.
+    - destruct H as (I1 & E1 & N1). simpl.
+      splits; [eapply Good_grow; eauto|intros A; eapply Avail_grow; eauto|apply (ext_locked _ _ E1)|exact HD].
+  Qed.
+
+  (** DeriveFromKeyPath *)
+  Lemma step_derive b st s p :
+    Good seed st ->
+    let st' := fst (step b st (ODerive s p)) in
+    Good seed st' /\ (Avail st -> Avail st') /\ m_locked (st_mem st') = m_locked (st_mem st) /\
+    st_disk st' = st_disk st /\
+    match snd (step b st (ODerive s p)) with
+    | OutAddrs [r] =>
+      rinfo_ok (st_disk st') (m_locked (st_mem st)) r /\
+      exists i, r = RKey i /\ r_imported i = false /\ r_scope i = s /\ r_path i = p
+    | OutErr _ => True
+    | _ => False
+    end.
+  Proof.
+    intros G. pose proof G as (I & NX & HCs). cbn [step]. unfold with_scope.
+    destruct (aget scope_eq_dec (m_scopes (st_mem st)) s) as [sch|] eqn:Es; [|simpl; splits; auto].
+    pose proof (aget_In _ _ _ _ Es) as Hs.
+    assert (HR : res_post' seed (m_locked (st_mem st)) st
+              (bind (load_acct st s sch (dp_iacct p)) (fun st0 ai =>
+                 match derive_key ai (dp_branch p) (dp_index p) (negb (locked st) && is_some (ai_priv ai)) with
+                 | DOk k => key_to_managed st0 s sch k p ai
+                 | DErr => Err st0 EKeyChain
+                 | DPanic => Err st0 EPanic
+                 end))
+              (fun st' oid => exists o, nth_error (m_heap (st_mem st')) oid = Some o /\
+                  exists ma, o = MKey ma /\ ma_imported ma = false /\ ma_scope ma = s /\ ma_path ma = p)).
+    { eapply res_post_bind'; [apply load_acct_post'; [exact I|reflexivity|exact Hs]|].
+      intros st1 ai I1 E1 (C1 & S1 & D1 & A1 & _).
+      pose proof (ai_static_wf _ _ _ _ _ _ (i_disk _ _ _ I1) S1) as Hwf.
+      destruct (derive_key ai (dp_branch p) (dp_index p) _) as [k| |] eqn:Hd;
+        [|simpl; splits; [exact I1|apply ext_refl|apply new_fresh_refl]..].
+      destruct (derive_key_spec _ _ _ _ _ Hwf Hd) as (K1 & K2 & K3).
+      assert (Hs1 : In (s, sch) (m_scopes (st_mem st1))) by (rewrite (ext_mscopes _ _ E1); exact Hs).
+      eapply res_post_weaken'; [apply (key_to_managed_post' seed (m_locked (st_mem st)) st1 s sch k p ai I1 Hs1 C1 K2)|].
+      - intros Hul Henc. rewrite K1. unfold locked.
+        destruct S1 as (row & _ & _ & _ & R4 & _ & _ & R7). rewrite R7.
+        rewrite (ext_locked _ _ E1) in Hul. rewrite Hul, <- R4. simpl.
+        destruct (ai_enc ai); [reflexivity|contradiction].
+      - intros st2 oid I2 E2 (P1 & (ma & N1 & N2 & N3 & N4 & N5 & N6 & _) & _).
+        exists (MKey ma). split; [exact N1|]. exists ma. splits; auto. }
+    assert (HN : res_next (bind (load_acct st s sch (dp_iacct p)) (fun st0 ai =>
+                 match derive_key ai (dp_branch p) (dp_index p) (negb (locked st) && is_some (ai_priv ai)) with
+                 | DOk k => key_to_managed st0 s sch k p ai
+                 | DErr => Err st0 EKeyChain
+                 | DPanic => Err st0 EPanic
+                 end))).
+    { pose proof (NextOk_load seed _ st s sch (dp_iacct p) I eq_refl Hs NX) as H1.
+      destruct (load_acct st s sch (dp_iacct p)) as [st1 ai|st1 e]; cbn [bind]; [|exact H1].
+      destruct (derive_key _ _ _ _); try exact H1. apply key_to_managed_next. exact H1. }
+    assert (HD : res_disk st (bind (load_acct st s sch (dp_iacct p)) (fun st0 ai =>
+                 match derive_key ai (dp_branch p) (dp_index p) (negb (locked st) && is_some (ai_priv ai)) with
+                 | DOk k => key_to_managed st0 s sch k p ai
+                 | DErr => Err st0 EKeyChain
+                 | DPanic => Err st0 EPanic
+                 end))).
+    { apply res_disk_bind; [apply load_acct_disk|]. intros st1 ai H1.
+      destruct (derive_key _ _ _ _); try reflexivity. apply key_to_managed_disk. }
+    cbv zeta.
+    destruct (bind (load_acct st s sch (dp_iacct p)) _) as [st1 oid|st1 e]; simpl in HR, HN, HD.
+    - destruct HR as (I1 & E1 & N1 & (o & O1 & ma & -> & M1 & M2 & M3)).
+      assert (Hv : Forall (fun x => (x < length (m_heap (st_mem st1)))%nat) [oid]).
+      { constructor; [eapply nth_error_Some_lt; eauto|constructor]. }
+      destruct (grow_then_report seed st st1 [oid] G I1 E1 N1 HN Hv) as (G2 & A2 & K2 & L2 & R2).
+      cbn [report_all] in G2, A2, K2, L2, R2.
+      destruct (report st1 oid) as [st2 r] eqn:Er. simpl in *.
+      inversion R2 as [|? ? ? ? (o & O1' & O2 & O3) Hnil]. subst.
+      rewrite O1 in O1'. inversion O1'. subst o.
+      splits; try assumption; try congruence; try (rewrite K2; exact O3).
+      simpl in O2. subst r. eexists. split; [reflexivity|]. simpl. rewrite M1. simpl. splits; auto.
+    - destruct HR as (I1 & E1 & N1). simpl.
+      splits; [eapply Good_grow; eauto|intros A; eapply Avail_grow; eauto|apply (ext_locked _ _ E1)|exact HD|exact Logic.I].
+  Qed.
+
+  (** AccountProperties *)
+  Lemma step_props b st s a :
+    Good seed st ->
+    let st' := fst (step b st (OProps s a)) in
+    Good seed st' /\ (Avail st -> Avail st') /\ m_locked (st_mem st') = m_locked (st_mem st) /\
+    st_disk st' = st_disk st /\
+    match snd (step b st (OProps s a)) with
+    | OutProps e i => e = disk_next (st_disk st) s a false /\ i = disk_next (st_disk st) s a true
+    | OutErr _ => True
+    | _ => False
+    end.
+  Proof.
+    intros G. pose proof G as (I & NX & HCs). cbn [step]. unfold with_scope.
+    destruct (aget scope_eq_dec (m_scopes (st_mem st)) s) as [sch|] eqn:Es; [|simpl; splits; auto].
+    pose proof (aget_In _ _ _ _ Es) as Hs.
+    pose proof (load_acct_post' seed _ st s sch a I eq_refl Hs) as H.
+    pose proof (NextOk_load seed _ st s sch a I eq_refl Hs NX) as HN.
+    pose proof (load_acct_disk st s sch a) as HD.
+    destruct (load_acct st s sch a) as [st1 ai|st1 e]; simpl in *.
+    - destruct H as (I1 & E1 & N1 & C1 & _).
+      splits; [eapply Good_grow; eauto|intros A; eapply Avail_grow; eauto|apply (ext_locked _ _ E1)|exact HD| |];
+        destruct (HN s a ai C1) as (X1 & X2); congruence.
+    - destruct H as (I1 & E1 & N1).
+      splits; [eapply Good_grow; eauto|intros A; eapply Avail_grow; eauto|apply (ext_locked _ _ E1)|exact HD|exact Logic.I].
+  Qed.
+End ops4.
